@@ -1,2 +1,7 @@
 import PsVerif.Generated.NormCalc
+#print axioms PsVerif.Gen.normcalc_max_n
+#print axioms PsVerif.Gen.mask_max_n
+#print axioms PsVerif.Gen.normcalc_exact_n
+#print axioms PsVerif.Gen.mask_exact_n
 #print axioms PsVerif.Gen.normcalc_predetermined
+#print axioms PsVerif.Gen.mask_predetermined
